@@ -10,16 +10,33 @@ DED = "contract-based deductive verification: pyvc generates VCs from the real s
 TB = ("Trusted: pyvc (vf/), z3 5.1.0 / cvc5; Python semantics as in DESIGN.md 2.4; assumed contracts on re/str/mdurl; "
       "composition steps listed in DESIGN.md 6. Bounded stand-ins are labelled bounded in evidence and never counted as proved.")
 
+MIX = ("Mixed (level 'other'): the deductive obligations listed in evidence (coverage.obligations == discharged, by back end) carry the anchored mechanisms for all inputs; "
+       "the remaining clauses of the statement are run-time contract monitors over bounded-exhaustive universes, reported under coverage.bounded and labelled bounded. ")
 CHECKS = {
     # id: (category, text, note, technique, design_ref)
-    "C08": ("proof", "Postconditions 'markup == the scanned marker run, with its count', 'info == src slice', 'content == getLines of exactly the "
-            "token's lines' are discharged for hr, heading, lheading, fence, code, html_block for all inputs under the line-table invariant WF.",
-            TB + " getLines itself is under an assumed contract in this tier (its own proof is pending); list/blockquote markup and backtick are bounded.",
-            DED, "4 C08"),
+    "C01": ("other", MIX + "SAFE (no exception at any indexing/int/chr/assert site) and DEC (termination) obligations for the StateBlock helpers and the seven leaf block rules under WF; "
+            "no-exception/no-hang monitor over the wrapped line universe x 9-12 configurations.", TB, DED + "; bounded no-exception monitor", "4 C01"),
+    "C02": ("other", MIX + "Balanced/levelled/flagged token postconditions of the seven leaf block rules (push inlined) discharged; full stream contract monitored on parse/parseInline.", TB, DED + "; bounded stream monitor", "4 C02"),
+    "C03": ("other", MIX + "map == [startLine, line'], non-empty, non-blank start/end postconditions of the leaf rules and skipEmptyLines discharged; whole map contract monitored on parse output.", TB, DED + "; bounded map monitor", "4 C03"),
+    "C04": ("other", MIX + "html_block succeeds only under a truthy options.html (POST); output language monitor (Safe, nested) over line and inline universes with html off.", TB, DED + "; bounded output-language monitor", "4 C04"),
+    "C07": ("other", MIX + "Leaf rules: failing/silent calls change nothing, successful calls restore level and parentType (POSTs discharged); the concatenation law monitored over closed-A x non-indented-B pairs.", TB, DED + "; bounded relational monitor", "4 C07"),
+    "C08": ("other", MIX + "markup == scanned marker run with its count, info == src slice, content == getLines of exactly the token's lines (hr, heading, lheading, fence, code, html_block) discharged for all inputs; "
+            "getLines/list markup/code span monitored.", TB + " getLines itself is under an assumed contract.", DED + "; bounded content monitor", "4 C08"),
     "C11": ("proof", "Every Ruler mutator is proved to invalidate the compiled cache on every exit (normal and KeyError) and to have exactly the "
-            "documented set semantics; first-match lookup proved. By induction over histories RI holds after any sequence of calls.",
-            TB + " getRules/__compile__ (cache == Filter(rules, chain)) are checked by the bounded history monitor (all sequences <= 3/4 over 47 ops).",
+            "documented set semantics (quantified postconditions over the rule records); first-match lookup proved. By induction over histories RI holds after any sequence of calls.",
+            TB + " getRules/__compile__ (cache == Filter(rules, chain)) are checked by the bounded history monitor (all sequences <= 3/4 over 47 ops), reported under coverage.bounded.",
             DED + "; bounded operation-sequence monitor as stand-in for __compile__", "3.1, 4 C11"),
+    "C12": ("proof", "Frame obligations (region typing) for every heap write site of every function in the package: parse-path functions write only per-call objects and the caller's env; the single instance write is "
+            "Ruler.__cache__; nothing writes module state; no global/setattr/mutable default/mutable class attribute. Hence results are a function of (configuration, src, env).",
+            TB + " The region table of vf/frame.py is trusted; dependencies assumed stateless. A random API-history monitor is the bounded stand-in for the composition step.",
+            "frame (modifies) clauses per function discharged by region typing over the real source", "2.3, 4 C12"),
+    "C13": ("proof", "Frame: the only instance state written during a parse is Ruler.__cache__. Strong invariant: every store to __cache__ publishes None or a complete local table that is never mutated afterwards "
+            "(publication dataflow over getRules/__compile__, aliases tracked). Owicki-Gries composition gives interference freedom at every interleaving.",
+            TB + " GIL atomicity of a single attribute store/load and the Owicki-Gries step are assumed.", "frame obligations + strong-invariant (publication) obligations on the real source", "4 C13"),
+    "C14": ("proof", "reset_rules executed symbolically with @contextmanager semantics: on both continuations of the yield the snapshot is restored in all four rulers (POST and POST-raise discharged); Ruler mutators keep RI on "
+            "KeyError exits; frame obligations hold at every program point so a raising callback leaves rules/options/renderer table untouched.",
+            TB + " The with-body is assumed to use only the public Ruler API. Crash-point monitor as bounded stand-in.", DED + "; frame back end; bounded crash-point monitor", "4 C14"),
+    "C15": ("other", MIX + "FRAME obligations: renderer/token/tree functions write only per-call objects (repeatable rendering as a frame fact); dict/tree round trips and render-twice monitored on parser output.", TB, "frame obligations + bounded round-trip monitors", "4 C15"),
 }
 
 
